@@ -18,7 +18,8 @@ as body and the rule with the ideal expansion as body derive the same facts.
 * `Sem.consS_rename`: … hence of the one-step consequences `ConsS`, when `τ` fixes the variables of the head clauses.
 * `expand_hygienic_sem`: the main theorem.  The renaming provided by the hygiene proof (`hyg_body`) is injective on
   `{v | v < reservedBase} ∪ vars ideal` (not globally; no extension to a global injection is needed, and neither `VarsSound`
-  nor the hypothesis `hbind` of `ideal_vars`).
+  nor the hypothesis `hbind` of `ideal_vars`).  Macro bodies may carry conditions attached to their clauses (since fix 3a6dc9a of
+  finding F25 the restriction is gone from `HygienicDefs`); `SemExampleAttached` is the former F25 witness as an instance.
 Everything is proved.
 -/
 namespace AscentVerif.Surface
@@ -113,7 +114,7 @@ theorem idealAlts_aggOk {recur : Nat → SItems E B G P A (MInv E) → Except Ex
     simp only [aggOkAlts] at hok ⊢
     exact ⟨hrec n a a' n1 h1 hok.1, idealAlts_aggOk hrec rest n1 rest' n' h2 hok.2⟩
 
-theorem idealItemsWith_aggOk {ops : Ops E B G A} {defs : Defs E B G P A} (hplain : ∀ d ∈ defs, plainItems d.body = true)
+theorem idealItemsWith_aggOk {ops : Ops E B G A} {defs : Defs E B G P A} (hnoagg : ∀ d ∈ defs, noAggItems d.body = true)
     {recur : Nat → SItems E B G P A (MInv E) → Except ExpandErr (SItems E B G P A (MInv E) × Nat)}
     (hrec : IdealAggRec recur) : ∀ (items : SItems E B G P A (MInv E)) (n : Nat) ideal n',
       idealItemsWith ops defs recur n items = .ok (ideal, n') → aggOkItems items → aggOkItems ideal
@@ -125,7 +126,7 @@ theorem idealItemsWith_aggOk {ops : Ops E B G A} {defs : Defs E B G P A} (hplain
     simp only at h2 h3
     subst h3
     simp only [aggOkItems] at hok
-    have h2' := idealItemsWith_aggOk hplain hrec rest n1 rest' n' h2 hok.2
+    have h2' := idealItemsWith_aggOk hnoagg hrec rest n1 rest' n' h2 hok.2
     have hone : aggOkItems is := by
       cases i with
       | flat f =>
@@ -141,19 +142,19 @@ theorem idealItemsWith_aggOk {ops : Ops E B G A} {defs : Defs E B G P A} (hplain
       | mac inv =>
         obtain ⟨d, hd, _, hr⟩ := idealOne_mac_ok h1
         have hdm : d ∈ defs := List.mem_of_getElem? hd
-        refine hrec _ _ _ _ hr (aggOkItems_of_plain _ ?_)
-        rw [plainItems_inst]
-        exact hplain d hdm
+        refine hrec _ _ _ _ hr (aggOkItems_of_noAgg _ ?_)
+        rw [noAggItems_inst]
+        exact hnoagg d hdm
     exact aggOkItems_append is rest' hone h2'
 
-theorem idealBody_aggOk (ops : Ops E B G A) {defs : Defs E B G P A} (hplain : ∀ d ∈ defs, plainItems d.body = true) :
+theorem idealBody_aggOk (ops : Ops E B G A) {defs : Defs E B G P A} (hnoagg : ∀ d ∈ defs, noAggItems d.body = true) :
     ∀ d, IdealAggRec (idealBody ops defs d)
   | 0 => by
     intro n items ideal n' h _
     cases items with
     | nil => cases h; trivial
     | cons i rest => cases h
-  | d + 1 => fun n items ideal n' h hok => idealItemsWith_aggOk hplain (idealBody_aggOk ops hplain d) items n ideal n' h hok
+  | d + 1 => fun n items ideal n' h hok => idealItemsWith_aggOk hnoagg (idealBody_aggOk ops hnoagg d) items n ideal n' h hok
 
 /-! ## the renaming law holds for the expression language of the executable ties -/
 
@@ -307,7 +308,7 @@ theorem hyps : HygienicDefs stdOps varsBx varsGx defs ∧ (∀ d ∈ defs, param
   · intro d hd
     simp only [defs, List.mem_singleton] at hd
     subst hd
-    simp [plainItems, plainItem, varsItems, varsItem, varsFItem, varsCond, varsBx, varsEx, stdOps, boundVarsS, boundVarsI, boundVarsF, paramBase]
+    simp [noAggItems, noAggItem, varsItems, varsItem, varsFItem, varsCond, varsBx, varsEx, stdOps, boundVarsS, boundVarsI, boundVarsF, paramBase]
   · intro d hd
     simp only [defs, List.mem_singleton] at hd
     subst hd
@@ -330,6 +331,61 @@ theorem same_consequences (kinds : RelId → LatKind) (agg : RelId → List Tupl
 
 end SemExample
 
+/-! ## the former F25 program (a condition ATTACHED to the clause of a macro body), in the expression language of the ties:
+since fix 3a6dc9a it is an instance of the main theorem -/
+namespace SemExampleAttached
+open AscentVerif.Std
+
+/-- `macro m0($p0: ident) { r0(v0, $p0) if 0 < v0 }` (the witness of finding F25: `foo(t, $y) if *t > 0`) -/
+def defs : Defs Ex Bx Gx Px Ax :=
+  [{ params := [.ident], body := .cons (.flat (.clause 0 [.var 0, .var paramBase] [.ifc (.lt (.const (.int 0)) (.var 0))])) .nil, heads := [] }]
+
+/-- `r2(v0, v1) <-- r1(v0), m0!(v1)`: the call site has its own `v0` -/
+def site : SItems Ex Bx Gx Px Ax (MInv Ex) := .cons (.flat (.clause 1 [.var 0] [])) (.cons (.mac ⟨0, [.ident 1]⟩) .nil)
+def heads : List (SHead Ex (MInv Ex)) := [.clause ⟨2, [.var 0, .var 1]⟩]
+
+/-- implemented: the macro's `v0` became `__v0_` (`gsMac 0`) in the clause AND in the attached condition -/
+def out : SItems Ex Bx Gx Px Ax (MInv Ex) :=
+  .cons (.flat (.clause 1 [.var 0] []))
+    (.cons (.flat (.clause 0 [.var (gsMac 0), .var 1] [.ifc (.lt (.const (.int 0)) (.var (gsMac 0)))])) .nil)
+/-- ideal: the macro's `v0` is `tagVar 0 0` -/
+def ideal : SItems Ex Bx Gx Px Ax (MInv Ex) :=
+  .cons (.flat (.clause 1 [.var 0] []))
+    (.cons (.flat (.clause 0 [.var (tagVar 0 0), .var 1] [.ifc (.lt (.const (.int 0)) (.var (tagVar 0 0)))])) .nil)
+
+theorem expand_out : expandBody stdOps defs false macroDepth {} site = .ok (out, { inv := 1, gs := 1 }) := by rfl
+theorem expand_ideal : idealBody stdOps defs macroDepth 0 site = .ok (ideal, 1) := by rfl
+
+theorem hyps : HygienicDefs stdOps varsBx varsGx defs ∧ (∀ d ∈ defs, paramBase + d.params.length ≤ reservedBase) ∧
+    (∀ hc, SHead.clause hc ∈ heads → ∀ e ∈ hc.args, ∀ v ∈ varsEx e, v < reservedBase) ∧
+    (∀ v ∈ varsItems stdOps varsBx varsGx site, v < paramBase) ∧ aggOkItems site := by
+  refine ⟨?_, ?_, ?_, ?_, ?_⟩
+  · intro d hd
+    simp only [defs, List.mem_singleton] at hd
+    subst hd
+    simp [noAggItems, noAggItem, varsItems, varsItem, varsFItem, varsCond, varsBx, varsEx, stdOps, boundVarsS, boundVarsI, boundVarsF, paramBase]
+  · intro d hd
+    simp only [defs, List.mem_singleton] at hd
+    subst hd
+    decide
+  · intro hc hm e he v hv
+    simp only [heads, List.mem_singleton, SHead.clause.injEq] at hm
+    subst hm
+    simp only [List.mem_cons, List.not_mem_nil, or_false] at he
+    rcases he with rfl | rfl <;> simp only [varsEx, List.mem_singleton] at hv <;> subst hv <;> decide
+  · intro v hv
+    simp [site, varsItems, varsItem, varsFItem, varsMInv, stdOps] at hv
+    rcases hv with rfl | rfl <;> decide
+  · simp [site, aggOkItems, aggOkItem, aggOkF]
+
+/-- the rule with the implemented expansion and the rule with the ideal expansion derive the same facts -/
+theorem same_consequences (kinds : RelId → LatKind) (agg : RelId → List Tuple) (D : DB) (f : Fact) :
+    ConsS (interp kinds) { heads := heads, body := out } agg D f ↔ ConsS (interp kinds) { heads := heads, body := ideal } agg D f :=
+  expand_hygienic_sem_std kinds defs hyps.1 hyps.2.1 heads hyps.2.2.1 site hyps.2.2.2.1 hyps.2.2.2.2 macroDepth out ideal _ _
+    expand_out expand_ideal agg D f
+
+end SemExampleAttached
+
 end AscentVerif.Surface
 
 section axioms_check
@@ -343,4 +399,5 @@ open AscentVerif.Surface
 #print axioms expand_hygienic_sem
 #print axioms expand_hygienic_sem_std
 #print axioms SemExample.same_consequences
+#print axioms SemExampleAttached.same_consequences
 end axioms_check
